@@ -282,6 +282,12 @@ MANIFEST = {
             "replayed on the real model and servers with an injected clock; the state before and after every call "
             "is logged and TLC evaluates the same clause predicates per step; 2-4 goroutines run free on one "
             "model and the clauses are evaluated at quiescence and on the PullModes / PullActiveMode streams. "
+            "Stored modes carry a start_time (the operation alphabet includes writing back what GetActiveMode / "
+            "ListModes returned, and modes added with a start_time) so that every switch is checked to be stamped "
+            "with the clock and not with a stale stored time; every ClearActiveMode response given under "
+            "concurrency (random mix, a goroutine moving the normal flag between two modes, and a forced schedule "
+            "that parks a writer inside the model lock with a blocking clock while a clear and a flag move queue "
+            "up) must return a normal mode: lookup and switch are one atomic step. "
             "Conformance on the generated sequences and sampled schedules, bounded model checking of the design; "
             "not a proof.",
     "note": "Trusted base: TLC 1.8.0 evaluating the TLA+ predicates; the harness abstraction (ids a-d / g<k> for "
